@@ -223,6 +223,11 @@ func c04HDLOuts(k, words, T, mode, outs int) Outcome {
 				got[c][i] = st.Ite(st.And(capture, st.Eq(ng[c], st.BV(uint64(i), 8))), val, got[c][i])
 			}
 			ng[c] = st.Ite(capture, st.Bin(smt.OpBvAdd, ng[c], st.BV(1, 8)), ng[c])
+			if mode == 1 {
+				// a value is only ever taken from a live offer: at the capture the producer is executing an r2owa on
+				// the output this consumer reads (a valid line left high after the producer moved on is caught here)
+				obls = append(obls, TermObl{Tag: fmt.Sprintf("captured-from-a-live-offer c%d @%d", c, t), Kind: "assert", Hyp: st.And(hyp, capture), Concl: st.And(isR2owa, outSel(c%outs))})
+			}
 			sat := st.Ite(st.Eq(sinceCap[c], st.BV(255, 8)), sinceCap[c], st.Bin(smt.OpBvAdd, sinceCap[c], st.BV(1, 8)))
 			sinceCap[c] = st.Ite(capture, st.BV(0, 8), sat)
 		}
